@@ -281,7 +281,11 @@ func runC06(tr *Trace, sc *Script, rec *Recorder, scratch string) *Violation {
 			ms := []int64{cfg["wait_ms"], cfg["retry_ms"], cfg["reorg_ms"], 100, 3000}[r.Intn(5)]
 			return Op{K: "time", A: []int64{ms}}, true
 		case 5:
-			return Op{K: "rel", S: labels[r.Intn(len(labels))], A: []int64{int64(1 + r.Intn(2))}}, true
+			fm := int64(1 + r.Intn(2))
+			if r.Bool(25) {
+				fm = replyDeadline
+			}
+			return Op{K: "rel", S: labels[r.Intn(len(labels))], A: []int64{fm}}, true
 		default:
 			return Op{K: "crash", A: []int64{cfg["sub_first"]}}, true
 		}
@@ -331,6 +335,9 @@ func runC06(tr *Trace, sc *Script, rec *Recorder, scratch string) *Violation {
 			}
 			mode := int(op.Arg(0))
 			if mode == replyNotFound && !(p.method == "HeaderByNumber" && p.desc[0] >= '0' && p.desc[0] <= '9') {
+				mode = replyTransient
+			}
+			if mode == replyDeadline && p.method != "HeaderByNumber" && p.method != "FilterLogs" {
 				mode = replyTransient
 			}
 			if mode != replyOK {
